@@ -66,7 +66,7 @@ func CheckTracePurity(run *report.Run, n int) error {
 					"provider": fmt.Sprintf("%s cap=%d", h.Cfg.Provider, h.Cfg.Cap), "default_request_content_type": h.Cfg.Default, "registry": h.Cfg.Registry,
 					"position_in_history": k, "history_length": len(h.Reads),
 					"content_type": rd.CT, "content_encoding": rd.CE, "body_hex": hex.EncodeToString(rd.Body),
-					"body_is":       fmt.Sprintf("%s value (%s) written by %s pretty=%v, coded %q (gzip level %d), then: %s", rd.Kind, rd.Val.Type, rd.API, rd.Pretty, rd.Coding, rd.Level, rd.Status),
+					"body_is":       fmt.Sprintf("%s value (%s) written by %s pretty=%v, coded %q (gzip level %d; %s), then: %s", rd.Kind, rd.Val.Type, rd.API, rd.Pretty, rd.Coding, rd.Level, rd.Enc, rd.Status),
 					"value_written": Canon(rd.Val.V), "target": fmt.Sprintf("%T", rd.Val.NewTarget()),
 					"trace_off":     off[k].Key() + " " + off[k].Detail, "trace_on": on[k].Key() + " " + on[k].Detail,
 					"alone_trace_off": aloneOff.Key(), "alone_trace_on": aloneOn.Key(),
